@@ -1,19 +1,1159 @@
-//! limiter engine (ops starting with `l`).
+//! limiter engine (ops starting with `l`), property C18.
+//!
+//! * `lnew/la/lp`: a real `Limiter<u64>` driven with explicit times through the facade.  Next to it
+//!   the runner keeps (a) a *shadow* limiter that never sees `lp` (prune must not change any
+//!   decision) and (b) an independent ledger of the accepted arrivals per key from which the
+//!   window bound (`tokens·t ≤ W + tau` for every window) and "conforming traffic is never
+//!   refused" are evaluated directly on the implementation's verdicts.
+//! * `lf*`: the real `Filter` (`initial_pass` / `final_pass` / `prune_limiter`) with the global
+//!   `PERMIT_BAN_LIST`; quotas are either never or always hit so that the wall clock read by
+//!   `RateLimiter::allows` cannot influence a decision.  `lfs` runs the real ban sweep
+//!   (`Handler::unban_nodes_check`) by advancing the paused tokio clock of a real `Handler`.
+//! * `lr*`: datagrams through the real `RecvHandler::handle_inbound` (exemption short-cut).
 #![allow(unused)]
 use crate::rng::Rng;
 use crate::util::*;
 use crate::{Runner, Stats};
+use discv5::enr::NodeId;
+use discv5::verif::limiter as fx;
+use discv5::verif::limiter::{KeyLimiter, PacketFilter, QuotaSpec, RecvOutcome, Verdict, VirtualRecv};
+use std::collections::{BTreeMap, BTreeSet, HashMap};
+use std::net::{IpAddr, Ipv4Addr, Ipv6Addr, SocketAddr};
+use std::time::{Duration, Instant};
 
-#[derive(Default)]
-pub struct LimiterRunner;
+const NS: u128 = 1_000_000_000;
+const U64: u128 = 1 << 64;
 
-impl Runner for LimiterRunner {
-    fn reset(&mut self) {}
-    fn step(&mut self, _line: &str, out: &mut Vec<String>, _stats: &mut Stats) {
-        out.push("bad-op".into());
+/// Quota that is never hit in a case: burst 10^6, one token per microsecond.
+const NEVER: (u64, u128) = (1_000_000, 1_000_000_000);
+/// Quota that is hit by every arrival of a key but the first: one token per 10^4 seconds.
+const ALWAYS: (u64, u128) = (1, 10_000_000_000_000);
+const SHORT_BAN_NS: u128 = 5_000_000;
+const LONG_BAN_NS: u128 = 3_600_000_000_000;
+const SLEEP_MS: u64 = 15;
+
+fn dur(ns: u128) -> Option<Duration> {
+    let secs = ns / NS;
+    if secs > u64::MAX as u128 {
+        return None;
+    }
+    Some(Duration::new(secs as u64, (ns % NS) as u32))
+}
+
+fn ip_of(i: u64) -> IpAddr {
+    if i % 5 == 4 {
+        IpAddr::V6(Ipv6Addr::new(0xfd00, 0, 0, 0, 0, 0, (i >> 16) as u16, i as u16))
+    } else {
+        IpAddr::V4(Ipv4Addr::new(10, (i >> 16) as u8, (i >> 8) as u8, i as u8))
     }
 }
 
-pub fn gen_case(_rng: &mut Rng, _tier: &str, _profile: &str, _stats: &mut Stats) -> Vec<String> {
-    Vec::new()
+fn node_of(i: u64) -> NodeId {
+    let mut b = [0u8; 32];
+    b[0] = 0xa5;
+    b[24..].copy_from_slice(&i.to_be_bytes());
+    NodeId::new(&b)
+}
+
+#[derive(Clone, Copy, PartialEq, Eq, Debug)]
+enum QMode {
+    Absent,
+    Never,
+    Always,
+    Other,
+}
+
+fn qmode(q: &Option<(u64, u128)>) -> QMode {
+    match q {
+        None => QMode::Absent,
+        Some(q) if *q == NEVER => QMode::Never,
+        Some(q) if *q == ALWAYS => QMode::Always,
+        Some(_) => QMode::Other,
+    }
+}
+
+#[derive(Clone, Debug)]
+struct FCfg {
+    enabled: bool,
+    /// `None` = no rate limiter at all; otherwise (total, node, ip).
+    quotas: Option<[Option<(u64, u128)>; 3]>,
+    max_nodes: Option<usize>,
+    max_bans: Option<usize>,
+    ban: Option<u128>,
+}
+
+fn parse_quota(s: &str) -> Option<Option<(u64, u128)>> {
+    if s == "x" {
+        return Some(None);
+    }
+    let (a, b) = s.split_once(':')?;
+    Some(Some((a.parse().ok()?, b.parse().ok()?)))
+}
+
+fn parse_opt<T: std::str::FromStr>(s: &str) -> Option<Option<T>> {
+    if s == "x" {
+        Some(None)
+    } else {
+        s.parse().ok().map(Some)
+    }
+}
+
+fn parse_cfg(en: &str, lim: &str, maxn: &str, maxb: &str, ban: &str) -> Option<FCfg> {
+    let quotas = if lim == "x" {
+        None
+    } else {
+        let p: Vec<&str> = lim.split('/').collect();
+        if p.len() != 3 {
+            return None;
+        }
+        Some([parse_quota(p[0])?, parse_quota(p[1])?, parse_quota(p[2])?])
+    };
+    Some(FCfg {
+        enabled: en == "1",
+        quotas,
+        max_nodes: parse_opt(maxn)?,
+        max_bans: parse_opt(maxb)?,
+        ban: parse_opt(ban)?,
+    })
+}
+
+fn quota_specs(q: &[Option<(u64, u128)>; 3]) -> Option<(QuotaSpec, QuotaSpec, QuotaSpec)> {
+    let f = |q: &Option<(u64, u128)>| -> Option<QuotaSpec> {
+        match q {
+            None => Some(None),
+            Some((n, p)) => Some(Some((*n, dur(*p)?))),
+        }
+    };
+    Some((f(&q[0])?, f(&q[1])?, f(&q[2])?))
+}
+
+/// The runner's own account of which keys already used up an always-hit quota.
+#[derive(Default)]
+struct FLedger {
+    seen_ip: BTreeSet<u64>,
+    seen_node: BTreeSet<u64>,
+    seen_total: bool,
+}
+
+struct Sweeper {
+    rt: tokio::runtime::Runtime,
+    _handler: Box<dyn std::any::Any>,
+}
+
+struct RecvSide {
+    rt: tokio::runtime::Runtime,
+    recv: VirtualRecv,
+}
+
+#[derive(Default)]
+pub struct LimiterRunner {
+    // --- limiter part
+    lim: Option<KeyLimiter>,
+    shadow: Option<KeyLimiter>,
+    tau: u128,
+    t: u128,
+    hyp_ok: bool,
+    last: u128,
+    hist: BTreeMap<u64, Vec<(u128, u128)>>,
+    // --- filter part
+    cfg: Option<FCfg>,
+    filt: Option<PacketFilter>,
+    ledger: FLedger,
+    ips: BTreeMap<IpAddr, u64>,
+    nodes: BTreeMap<[u8; 32], u64>,
+    sweeper: Option<Sweeper>,
+    recv: Option<RecvSide>,
+}
+
+fn barrier_addr() -> SocketAddr {
+    SocketAddr::new(IpAddr::V4(Ipv4Addr::new(255, 255, 255, 254)), 1)
+}
+
+impl LimiterRunner {
+    fn ip(&mut self, i: u64) -> IpAddr {
+        let ip = ip_of(i);
+        self.ips.insert(ip, i);
+        ip
+    }
+
+    fn node(&mut self, i: u64) -> NodeId {
+        let n = node_of(i);
+        self.nodes.insert(n.raw(), i);
+        n
+    }
+
+    fn snapshot(&self) -> String {
+        let s = fx::permit_ban_snapshot();
+        let name_ip = |ip: &IpAddr| self.ips.get(ip).map(|i| *i as i128).unwrap_or(-1);
+        let name_node = |n: &NodeId| self.nodes.get(&n.raw()).map(|i| *i as i128).unwrap_or(-1);
+        let set = |mut v: Vec<i128>| {
+            v.sort();
+            if v.is_empty() {
+                "-".to_string()
+            } else {
+                v.iter().map(|x| x.to_string()).collect::<Vec<_>>().join(",")
+            }
+        };
+        let map = |mut v: Vec<(i128, bool)>| {
+            v.sort();
+            if v.is_empty() {
+                "-".to_string()
+            } else {
+                v.iter()
+                    .map(|(k, timed)| format!("{}:{}", k, if *timed { "t" } else { "p" }))
+                    .collect::<Vec<_>>()
+                    .join(",")
+            }
+        };
+        format!(
+            "pi={} bi={} pn={} bn={}",
+            set(s.permit_ips.iter().map(name_ip).collect()),
+            map(s.ban_ips.iter().map(|(k, e)| (name_ip(k), e.is_some())).collect()),
+            set(s.permit_nodes.iter().map(name_node).collect()),
+            map(s.ban_nodes.iter().map(|(k, e)| (name_node(k), e.is_some())).collect()),
+        )
+    }
+
+    /// Checks a ban entry created by the filter: present, and not shorter than the configured
+    /// duration counted from `before` (a clock reading taken before the call).
+    fn ban_entry_ok(entry: Option<Option<Instant>>, before: Instant, ban: Option<u128>) -> bool {
+        match (entry, ban) {
+            (None, _) => false,
+            (Some(None), None) => true,
+            (Some(None), Some(_)) => true, // permanent: longer than any duration
+            (Some(Some(_)), None) => false,
+            (Some(Some(e)), Some(d)) => match dur(d) {
+                Some(d) => e >= before + d,
+                None => true,
+            },
+        }
+    }
+
+    fn sweep(&mut self) -> bool {
+        if self.sweeper.is_none() {
+            let rt = match tokio::runtime::Builder::new_current_thread()
+                .enable_all()
+                .start_paused(true)
+                .build()
+            {
+                Ok(rt) => rt,
+                Err(_) => return false,
+            };
+            let h = rt.block_on(async {
+                let h = fx::spawn_sweeping_handler().await;
+                for _ in 0..16 {
+                    tokio::task::yield_now().await;
+                }
+                h
+            });
+            match h {
+                Ok(h) => self.sweeper = Some(Sweeper { rt, _handler: h }),
+                Err(_) => return false,
+            }
+        }
+        let s = self.sweeper.as_ref().unwrap();
+        s.rt.block_on(async {
+            tokio::time::advance(Duration::from_secs(fx::SWEEP_PERIOD_SECS + 1)).await;
+            for _ in 0..16 {
+                tokio::task::yield_now().await;
+            }
+        });
+        true
+    }
+
+    fn new_filter(&mut self, cfg: FCfg, behind_recv: bool, out: &mut Vec<String>) {
+        fx::permit_ban_reset();
+        self.filt = None;
+        self.recv = None;
+        self.ledger = FLedger::default();
+        let specs = match &cfg.quotas {
+            None => Some(None),
+            Some(q) => quota_specs(q).map(Some),
+        };
+        let Some(specs) = specs else {
+            out.push("err:quota".into());
+            return;
+        };
+        let ban = match cfg.ban {
+            None => None,
+            Some(d) => match dur(d) {
+                Some(d) => Some(d),
+                None => {
+                    out.push("bad-op".into());
+                    return;
+                }
+            },
+        };
+        if behind_recv {
+            let rt = tokio::runtime::Builder::new_current_thread().enable_all().build().expect("runtime");
+            let local = node_of(0xffff_ffff);
+            let r = rt.block_on(VirtualRecv::new(cfg.enabled, specs, cfg.max_nodes, cfg.max_bans, ban, local));
+            match r {
+                Ok(recv) => {
+                    recv.expected_responses.write().insert(barrier_addr(), 1);
+                    self.recv = Some(RecvSide { rt, recv });
+                    self.cfg = Some(cfg);
+                    out.push("ok".into());
+                }
+                Err(_) => out.push("err:quota".into()),
+            }
+        } else {
+            match PacketFilter::new(cfg.enabled, specs, cfg.max_nodes, cfg.max_bans, ban) {
+                Ok(f) => {
+                    self.filt = Some(f);
+                    self.cfg = Some(cfg);
+                    out.push("ok".into());
+                }
+                Err(_) => out.push("err:quota".into()),
+            }
+        }
+    }
+
+    /// Monitors of the IP stage, evaluated from the runner's own reading of the lists before the
+    /// call (`permitted`, `banned`) and its ledger.  Returns nothing; pushes `!MON` lines.
+    fn monitor_initial(
+        &mut self,
+        ipi: u64,
+        ip: IpAddr,
+        permitted: bool,
+        banned: bool,
+        before: Instant,
+        pass: bool,
+        out: &mut Vec<String>,
+        stats: &mut Stats,
+    ) {
+        let cfg = self.cfg.clone().unwrap();
+        if permitted {
+            stats.bump("lf.ip.permitted");
+            if !pass {
+                out.push(format!("!MON C18 permitted-dropped stage=ip ip={}", ipi));
+            }
+            return;
+        }
+        if banned {
+            stats.bump("lf.ip.banned");
+            if pass {
+                out.push(format!("!MON C18 banned-passed stage=ip ip={}", ipi));
+            }
+            return;
+        }
+        let Some(q) = cfg.quotas.filter(|_| cfg.enabled) else {
+            if !pass {
+                out.push(format!("!MON C18 conforming-refused stage=ip ip={} (no limiter in force)", ipi));
+            }
+            return;
+        };
+        let (tot, ipq) = (qmode(&q[0]), qmode(&q[2]));
+        // per-IP quota
+        let ip_excess = match ipq {
+            QMode::Always => !self.ledger.seen_ip.insert(ipi),
+            QMode::Other => return,
+            _ => false,
+        };
+        if ip_excess {
+            stats.bump("lf.ip.excess");
+            let entry = fx::permit_ban_snapshot().ban_ips.iter().find(|(k, _)| *k == ip).map(|(_, e)| *e);
+            if pass || !Self::ban_entry_ok(entry, before, cfg.ban) {
+                out.push(format!("!MON C18 excess-without-ban stage=ip ip={} pass={} entry={:?}", ipi, pass, entry.map(|e| e.is_some())));
+            }
+            return;
+        }
+        // total quota
+        let tot_excess = match tot {
+            QMode::Always => std::mem::replace(&mut self.ledger.seen_total, true),
+            QMode::Other => return,
+            _ => false,
+        };
+        if tot_excess {
+            stats.bump("lf.total.excess");
+            if pass {
+                out.push(format!("!MON C18 window-exceeded stage=total ip={}", ipi));
+            }
+        } else {
+            stats.bump("lf.ip.conforming");
+            if !pass {
+                out.push(format!("!MON C18 conforming-refused stage=ip ip={}", ipi));
+            }
+        }
+    }
+
+    fn monitor_final(
+        &mut self,
+        ipi: u64,
+        ni: u64,
+        node: NodeId,
+        permitted: bool,
+        banned: bool,
+        before: Instant,
+        pass: bool,
+        out: &mut Vec<String>,
+        stats: &mut Stats,
+    ) {
+        let cfg = self.cfg.clone().unwrap();
+        if permitted {
+            stats.bump("lf.node.permitted");
+            if !pass {
+                out.push(format!("!MON C18 permitted-dropped stage=node node={}", ni));
+            }
+            return;
+        }
+        if banned {
+            stats.bump("lf.node.banned");
+            if pass {
+                out.push(format!("!MON C18 banned-passed stage=node node={}", ni));
+            }
+            return;
+        }
+        if !cfg.enabled {
+            if !pass {
+                out.push(format!("!MON C18 conforming-refused stage=node node={} (filter disabled)", ni));
+            }
+            return;
+        }
+        let nq = cfg.quotas.map(|q| qmode(&q[1])).unwrap_or(QMode::Absent);
+        let excess = match nq {
+            QMode::Always => !self.ledger.seen_node.insert(ni),
+            QMode::Other => return,
+            _ => false,
+        };
+        if excess {
+            stats.bump("lf.node.excess");
+            let entry = fx::permit_ban_snapshot().ban_nodes.iter().find(|(k, _)| *k == node).map(|(_, e)| *e);
+            if pass || !Self::ban_entry_ok(entry, before, cfg.ban) {
+                out.push(format!("!MON C18 excess-without-ban stage=node node={} pass={} entry={:?}", ni, pass, entry.map(|e| e.is_some())));
+            }
+        } else if cfg.max_nodes.is_none() {
+            stats.bump("lf.node.conforming");
+            if !pass {
+                out.push(format!("!MON C18 conforming-refused stage=node node={} ip={}", ni, ipi));
+            }
+        }
+    }
+}
+
+impl Runner for LimiterRunner {
+    fn reset(&mut self) {
+        self.lim = None;
+        self.shadow = None;
+        self.hist.clear();
+        self.hyp_ok = true;
+        self.last = 0;
+        self.cfg = None;
+        self.filt = None;
+        self.recv = None;
+        self.ledger = FLedger::default();
+        self.ips.clear();
+        self.nodes.clear();
+        fx::permit_ban_reset();
+    }
+
+    fn step(&mut self, line: &str, out: &mut Vec<String>, stats: &mut Stats) {
+        let tk: Vec<&str> = line.split(' ').collect();
+        match tk.as_slice() {
+            // ------------------------------------------------------------------ Limiter
+            ["lnew", n, period] => {
+                let (Ok(n), Ok(period)) = (n.parse::<u64>(), period.parse::<u128>()) else {
+                    out.push("bad-op".into());
+                    return;
+                };
+                let Some(d) = dur(period) else {
+                    out.push("bad-op".into());
+                    return;
+                };
+                self.hist.clear();
+                self.hyp_ok = true;
+                self.last = 0;
+                match no_panic(move || KeyLimiter::from_quota(n, d)) {
+                    None => {
+                        self.lim = None;
+                        out.push("panic".into());
+                    }
+                    Some(Err(_)) => {
+                        self.lim = None;
+                        self.shadow = None;
+                        stats.bump("lnew.err");
+                        out.push("err:quota".into());
+                    }
+                    Some(Ok(l)) => {
+                        let (tau, t) = l.params();
+                        // the runner's own reading of the quota: one token per floor(period / n)
+                        self.tau = period;
+                        self.t = period / n as u128;
+                        if t == 0 {
+                            stats.bump("lnew.t-zero");
+                        } else if (t as u128) * (n as u128) != tau as u128 {
+                            stats.bump("lnew.rounded");
+                        } else {
+                            stats.bump("lnew.exact");
+                        }
+                        self.shadow = Some(l.clone());
+                        self.lim = Some(l);
+                        out.push(format!("ok tau={} t={}", tau, t));
+                    }
+                }
+            }
+            ["la", ns, key, tokens] => {
+                let (Ok(ns), Ok(key), Ok(tokens)) = (ns.parse::<u128>(), key.parse::<u64>(), tokens.parse::<u64>())
+                else {
+                    out.push("bad-op".into());
+                    return;
+                };
+                if dur(ns).is_none() {
+                    return out.push("bad-op".into());
+                }
+                let (Some(d), Some(mut l), Some(mut sh)) = (dur(ns), self.lim.take(), self.shadow.take()) else {
+                    out.push("bad-op".into());
+                    return;
+                };
+                let r = no_panic(move || {
+                    let v = l.allows(d, key, tokens);
+                    (l, v)
+                });
+                let rs = no_panic(move || {
+                    let v = sh.allows(d, key, tokens);
+                    (sh, v)
+                });
+                let (Some((l, v)), Some((sh, vs))) = (r, rs) else {
+                    out.push("!MON C18 limiter-panic".into());
+                    out.push("panic".into());
+                    return;
+                };
+                // hypotheses of the theorems: monotone times, no u64 overflow in reach
+                if ns < self.last || ns + 2 * self.tau >= U64 || self.t * tokens as u128 >= U64 {
+                    self.hyp_ok = false;
+                }
+                self.last = self.last.max(ns);
+                let k = tokens as u128;
+                if self.hyp_ok {
+                    stats.bump("la.mon");
+                    if v != vs {
+                        out.push(format!("!MON C18 prune-changed-decision key={} with-prune={:?} without={:?}", key, v, vs));
+                    }
+                    // independent window account: S_i = tokens of accepted arrivals i..newest
+                    let h = self.hist.entry(key).or_default();
+                    let mut fits = k * self.t <= self.tau;
+                    let mut worst = None;
+                    let mut s = k;
+                    for (a, kk) in h.iter().rev() {
+                        s += kk;
+                        if s * self.t > (ns - a) + self.tau {
+                            fits = false;
+                            worst = Some((s, ns - a));
+                        }
+                    }
+                    match v {
+                        Verdict::Ok => {
+                            stats.bump("la.ok");
+                            if !fits {
+                                let (s, w) = worst.unwrap_or((k, 0));
+                                out.push(format!(
+                                    "!MON C18 window-exceeded key={} tokens={} window={} tau={} t={}",
+                                    key, s, w, self.tau, self.t
+                                ));
+                            }
+                            h.push((ns, k));
+                        }
+                        Verdict::TooLarge | Verdict::TooSoon(_) => {
+                            stats.bump(if v == Verdict::TooLarge { "la.large" } else { "la.soon" });
+                            if fits {
+                                out.push(format!("!MON C18 conforming-refused key={} ns={} tokens={}", key, ns, k));
+                            }
+                        }
+                    }
+                } else {
+                    stats.bump("la.wild");
+                }
+                let dump = l.dump();
+                let tat = dump.iter().find(|(kk, _)| *kk == key).map(|(_, t)| t.to_string()).unwrap_or("-".into());
+                let vtxt = match v {
+                    Verdict::Ok => "ok".to_string(),
+                    Verdict::TooLarge => "large".to_string(),
+                    Verdict::TooSoon(w) => format!("soon:{}", w),
+                };
+                out.push(format!("{} tat={} n={}", vtxt, tat, dump.len()));
+                self.lim = Some(l);
+                self.shadow = Some(sh);
+            }
+            ["lp", ns] => {
+                let Ok(ns) = ns.parse::<u128>() else {
+                    out.push("bad-op".into());
+                    return;
+                };
+                if dur(ns).is_none() {
+                    return out.push("bad-op".into());
+                }
+                let (Some(d), Some(mut l)) = (dur(ns), self.lim.take()) else {
+                    out.push("bad-op".into());
+                    return;
+                };
+                let Some(l) = no_panic(move || {
+                    l.prune(d);
+                    l
+                }) else {
+                    out.push("!MON C18 limiter-panic".into());
+                    out.push("panic".into());
+                    return;
+                };
+                if ns < self.last || ns >= U64 {
+                    self.hyp_ok = false;
+                }
+                self.last = self.last.max(ns);
+                let dump = l.dump();
+                if self.shadow.as_ref().map(|s| s.dump().len()).unwrap_or(0) > dump.len() {
+                    stats.bump("lp.removed");
+                }
+                let body = if dump.is_empty() {
+                    "-".to_string()
+                } else {
+                    dump.iter().map(|(k, t)| format!("{}:{}", k, t)).collect::<Vec<_>>().join(",")
+                };
+                out.push(format!("n={} {}", dump.len(), body));
+                self.lim = Some(l);
+            }
+            // ------------------------------------------------------------------ Filter
+            ["lfnew", en, lim, maxn, maxb, ban] | ["lrnew", en, lim, maxn, maxb, ban] => {
+                let Some(cfg) = parse_cfg(en, lim, maxn, maxb, ban) else {
+                    out.push("bad-op".into());
+                    return;
+                };
+                let behind = tk[0] == "lrnew";
+                stats.bump(if behind { "lrnew" } else { "lfnew" });
+                self.new_filter(cfg, behind, out);
+            }
+            ["lfpi", ip] => {
+                let Ok(i) = ip.parse::<u64>() else { return out.push("bad-op".into()) };
+                let ip = self.ip(i);
+                fx::permit_ip(ip);
+                out.push(self.snapshot());
+            }
+            ["lfpn", node] => {
+                let Ok(i) = node.parse::<u64>() else { return out.push("bad-op".into()) };
+                let n = self.node(i);
+                fx::permit_node(n);
+                out.push(self.snapshot());
+            }
+            ["lfbi", _now, ip, d] => {
+                let (Ok(i), Some(d)) = (ip.parse::<u64>(), parse_opt::<u128>(d)) else {
+                    return out.push("bad-op".into());
+                };
+                let ip = self.ip(i);
+                fx::ban_ip(ip, d.and_then(dur));
+                out.push(self.snapshot());
+            }
+            ["lfbn", _now, node, d] => {
+                let (Ok(i), Some(d)) = (node.parse::<u64>(), parse_opt::<u128>(d)) else {
+                    return out.push("bad-op".into());
+                };
+                let n = self.node(i);
+                fx::ban_node(n, d.and_then(dur));
+                out.push(self.snapshot());
+            }
+            ["lfi", _now, ip] => {
+                let Ok(i) = ip.parse::<u64>() else { return out.push("bad-op".into()) };
+                let ip = self.ip(i);
+                let Some(mut f) = self.filt.take() else { return out.push("bad-op".into()) };
+                let snap = fx::permit_ban_snapshot();
+                let permitted = snap.permit_ips.contains(&ip);
+                let banned = snap.ban_ips.iter().any(|(k, _)| *k == ip);
+                let before = Instant::now();
+                let src = SocketAddr::new(ip, 30303);
+                let r = no_panic(std::panic::AssertUnwindSafe(move || {
+                    let p = f.initial_pass(&src);
+                    (f, p)
+                }));
+                let Some((f, pass)) = r else {
+                    out.push("!MON C18 filter-panic".into());
+                    return out.push("panic".into());
+                };
+                self.filt = Some(f);
+                stats.bump(if pass { "lfi.pass" } else { "lfi.drop" });
+                self.monitor_initial(i, ip, permitted, banned, before, pass, out, stats);
+                out.push(format!("{} {}", if pass { "pass" } else { "drop" }, self.snapshot()));
+            }
+            ["lff", _now, ip, node] => {
+                let (Ok(i), Ok(ni)) = (ip.parse::<u64>(), node.parse::<u64>()) else {
+                    return out.push("bad-op".into());
+                };
+                let ip = self.ip(i);
+                let node = self.node(ni);
+                let Some(mut f) = self.filt.take() else { return out.push("bad-op".into()) };
+                let snap = fx::permit_ban_snapshot();
+                let permitted = snap.permit_nodes.contains(&node);
+                let banned = snap.ban_nodes.iter().any(|(k, _)| *k == node);
+                let before = Instant::now();
+                let src = SocketAddr::new(ip, 30303);
+                let r = no_panic(std::panic::AssertUnwindSafe(move || {
+                    let p = f.final_pass(src, node);
+                    (f, p)
+                }));
+                let Some((f, pass)) = r else {
+                    out.push("!MON C18 filter-panic".into());
+                    return out.push("panic".into());
+                };
+                self.filt = Some(f);
+                stats.bump(if pass { "lff.pass" } else { "lff.drop" });
+                self.monitor_final(i, ni, node, permitted, banned, before, pass, out, stats);
+                out.push(format!("{} {}", if pass { "pass" } else { "drop" }, self.snapshot()));
+            }
+            ["lfp", _now] => {
+                let Some(mut f) = self.filt.take() else { return out.push("bad-op".into()) };
+                let r = no_panic(std::panic::AssertUnwindSafe(move || {
+                    f.prune_limiter();
+                    f
+                }));
+                match r {
+                    Some(f) => {
+                        self.filt = Some(f);
+                        stats.bump("lfp");
+                        out.push("ok".into());
+                    }
+                    None => {
+                        out.push("!MON C18 filter-panic".into());
+                        out.push("panic".into());
+                    }
+                }
+            }
+            ["lfz", _now, ms] => {
+                let Ok(ms) = ms.parse::<u64>() else { return out.push("bad-op".into()) };
+                std::thread::sleep(Duration::from_millis(ms.min(200)));
+                stats.bump("lfz");
+                out.push("ok".into());
+            }
+            ["lfs", _now] => {
+                // the sweep may only remove bans whose expiry has passed
+                let before = fx::permit_ban_snapshot();
+                let t0 = Instant::now();
+                if !self.sweep() {
+                    return out.push("err:sweeper".into());
+                }
+                let t1 = Instant::now();
+                let after = fx::permit_ban_snapshot();
+                for (k, e) in &before.ban_ips {
+                    let still = after.ban_ips.iter().any(|(k2, _)| k2 == k);
+                    let live = e.map(|e| e > t1).unwrap_or(true);
+                    let expired = e.map(|e| e <= t0).unwrap_or(false);
+                    if live && !still {
+                        out.push(format!("!MON C18 sweep-removed-live-ban ip={}", self.ips.get(k).copied().unwrap_or(0)));
+                    }
+                    if expired && still {
+                        out.push(format!("!MON C18 sweep-kept-expired-ban ip={}", self.ips.get(k).copied().unwrap_or(0)));
+                    }
+                    if !still {
+                        stats.bump("lfs.unbanned");
+                    }
+                }
+                for (k, e) in &before.ban_nodes {
+                    let still = after.ban_nodes.iter().any(|(k2, _)| k2 == k);
+                    let live = e.map(|e| e > t1).unwrap_or(true);
+                    let expired = e.map(|e| e <= t0).unwrap_or(false);
+                    if live && !still {
+                        out.push(format!("!MON C18 sweep-removed-live-ban node={}", self.nodes.get(&k.raw()).copied().unwrap_or(0)));
+                    }
+                    if expired && still {
+                        out.push(format!("!MON C18 sweep-kept-expired-ban node={}", self.nodes.get(&k.raw()).copied().unwrap_or(0)));
+                    }
+                    if !still {
+                        stats.bump("lfs.unbanned");
+                    }
+                }
+                stats.bump("lfs");
+                out.push(self.snapshot());
+            }
+            // ------------------------------------------------------------------ receive path
+            ["lrx", ip, port] | ["lry", ip, port] => {
+                let (Ok(i), Ok(port)) = (ip.parse::<u64>(), port.parse::<u16>()) else {
+                    return out.push("bad-op".into());
+                };
+                let ip = self.ip(i);
+                let Some(r) = self.recv.as_ref() else { return out.push("bad-op".into()) };
+                let addr = SocketAddr::new(ip, port);
+                if tk[0] == "lrx" {
+                    r.recv.expected_responses.write().insert(addr, 1);
+                } else {
+                    r.recv.expected_responses.write().remove(&addr);
+                }
+                out.push("ok".into());
+            }
+            ["lrin", _now, ip, port, kind, node] => {
+                let (Ok(i), Ok(port), Ok(ni)) = (ip.parse::<u64>(), port.parse::<u16>(), node.parse::<u64>()) else {
+                    return out.push("bad-op".into());
+                };
+                let ip = self.ip(i);
+                let node = if *kind == "m" { self.node(ni) } else { node_of(ni) };
+                let Some(r) = self.recv.as_mut() else { return out.push("bad-op".into()) };
+                let addr = SocketAddr::new(ip, port);
+                let data = match *kind {
+                    "g" => vec![0x5a; 80],
+                    "w" => r.recv.whoareyou_datagram(),
+                    "m" => r.recv.message_datagram(node),
+                    _ => return out.push("bad-op".into()),
+                };
+                let exempt = r.recv.expected_responses.read().contains_key(&addr);
+                let snap = fx::permit_ban_snapshot();
+                let ip_permit = snap.permit_ips.contains(&ip);
+                let ip_ban = snap.ban_ips.iter().any(|(k, _)| *k == ip);
+                let n_permit = snap.permit_nodes.contains(&node);
+                let n_ban = snap.ban_nodes.iter().any(|(k, _)| *k == node);
+                let RecvSide { rt, recv } = r;
+                let Some(o) = rt.block_on(recv.deliver(addr, data, barrier_addr())) else {
+                    out.push("!MON C18 recv-handler-stopped".into());
+                    return out.push("panic".into());
+                };
+                let expect_kind = match *kind {
+                    "g" => RecvOutcome::Unrecognized,
+                    _ => RecvOutcome::Inbound,
+                };
+                if exempt {
+                    stats.bump("lrin.exempt");
+                    if o != expect_kind {
+                        out.push(format!("!MON C18 exempt-dropped ip={} port={} got={:?}", i, port, o));
+                    }
+                } else if ip_permit && (*kind != "m" || n_permit) {
+                    stats.bump("lrin.permitted");
+                    if o != expect_kind {
+                        out.push(format!("!MON C18 permitted-dropped stage=recv ip={} got={:?}", i, o));
+                    }
+                } else if (ip_ban && !ip_permit) || (*kind == "m" && n_ban && !n_permit) {
+                    stats.bump("lrin.banned");
+                    if o != RecvOutcome::Dropped {
+                        out.push(format!("!MON C18 banned-passed stage=recv ip={} node={} got={:?}", i, ni, o));
+                    }
+                } else {
+                    stats.bump("lrin.other");
+                }
+                let otxt = match o {
+                    RecvOutcome::Dropped => "dropped",
+                    RecvOutcome::Unrecognized => "unrec",
+                    RecvOutcome::Inbound => "inbound",
+                };
+                out.push(format!("{} {}", otxt, self.snapshot()));
+            }
+            _ => out.push("bad-op".into()),
+        }
+    }
+}
+
+// ================================================================================ generator
+
+fn quota_txt(q: Option<(u64, u128)>) -> String {
+    match q {
+        None => "x".into(),
+        Some((n, p)) => format!("{}:{}", n, p),
+    }
+}
+
+/// A bound for `Rng::below` derived from a (possibly huge) duration.
+fn cap(x: u128) -> u64 {
+    x.clamp(2, 1 << 50) as u64
+}
+
+fn gen_limiter_case(rng: &mut Rng, thorough: bool, stats: &mut Stats) -> Vec<String> {
+    let mut ops = Vec::new();
+    // ---- quota
+    let n: u64 = match rng.below(12) {
+        0 => 1,
+        1 => 2,
+        2 => 3,
+        3 => 4,
+        4 => 5,
+        5 => 8,
+        6 => 10,
+        7 => 16,
+        8 => 100,
+        _ => rng.range(1, 50),
+    };
+    let mut period: u128 = match rng.below(14) {
+        0 => 1_000_000,
+        1 => NS,
+        2 => 2 * NS,
+        3 => 10_000_000,
+        4 => 7,
+        5 => 10,
+        6 => (n as u128) * rng.range(1, 1000) as u128,             // exact multiple
+        7 => (n as u128) * rng.range(1, 1000) as u128 + rng.below(n) as u128, // rounded
+        8 => rng.range(1, 60) as u128,                             // may be < n (t = 0)
+        9 => rng.range(1, 5_000_000_000) as u128,
+        10 => (n as u128) * rng.range(1, 100_000) as u128,
+        11 => 1000,
+        12 => 60 * NS,
+        _ => rng.range(1, 1_000_000) as u128,
+    };
+    let mut nq = n;
+    let wild = rng.chance(1, 5);
+    if wild {
+        match rng.below(10) {
+            0 => nq = 0,
+            1 => period = 0,
+            2 => period = U64,
+            3 => period = U64 - 1,
+            4 => period = (1u128 << 63) + rng.below(10) as u128,
+            5 => period = U64 * (n as u128) + rng.below(5) as u128,
+            6 => period = (1u128 << 62) - rng.below(3) as u128,
+            _ => {}
+        }
+    }
+    ops.push(format!("lnew {} {}", nq, period));
+    stats.bump(if wild { "gen.lim.wild" } else { "gen.lim.mono" });
+    if nq == 0 || period == 0 || period >= U64 {
+        // `from_quota` refuses; one arrival shows that nothing was built
+        ops.push("la 5 0 1".to_string());
+        return ops;
+    }
+    let tau = period;
+    let t = period / nq as u128;
+    // ---- arrivals
+    let nkeys = rng.range(1, 4);
+    let base: u128 = if wild {
+        match rng.below(6) {
+            0 => (1u128 << 62) - rng.below(1000) as u128,
+            1 => (1u128 << 63) - rng.below(1000) as u128,
+            2 => U64 - 1 - rng.below(cap(3 * t) + 5) as u128,
+            3 => U64 + rng.below(1000) as u128,
+            4 => (U64 - 1).saturating_sub(2 * tau + rng.below(50) as u128),
+            _ => rng.below(1 << 40) as u128,
+        }
+    } else {
+        match rng.below(4) {
+            0 => 0,
+            1 => rng.below(1000) as u128,
+            2 => rng.below(1 << 40) as u128,
+            _ => (1u128 << 61) + rng.below(1 << 30) as u128,
+        }
+    };
+    let mut now = base;
+    // textbook GCRA per key, only used to aim arrivals at the acceptance boundary
+    let mut guess: BTreeMap<u64, u128> = BTreeMap::new();
+    let total = if thorough { rng.range(60, 140) } else { rng.range(80, 110) };
+    let mut pattern = rng.below(7);
+    let mut left_in_pattern = rng.range(3, 25);
+    for _ in 0..total {
+        if left_in_pattern == 0 {
+            pattern = rng.below(7);
+            left_in_pattern = rng.range(3, 25);
+        }
+        left_in_pattern -= 1;
+        let key = if rng.chance(3, 4) { 0 } else { rng.below(nkeys) };
+        let tokens: u64 = if rng.chance(9, 10) {
+            1
+        } else {
+            match rng.below(if wild { 8 } else { 5 }) {
+                0 => 0,
+                1 => 2,
+                2 => nq,
+                3 => nq + 1,
+                4 => rng.range(1, nq.max(1)),
+                5 => u64::MAX,
+                6 => ((U64 / t.max(1)) as u64).wrapping_add(rng.below(3)),
+                _ => rng.next(),
+            }
+        };
+        let g = *guess.get(&key).unwrap_or(&0);
+        let need = (g + t * tokens as u128).saturating_sub(tau); // earliest acceptable time
+        let step: u128 = match pattern {
+            0 => 0,                                            // burst
+            1 => t,                                            // exactly at the rate
+            2 => t.saturating_sub(1),                          // just above the rate
+            3 => t + 1,                                        // just below the rate
+            4 => rng.below(cap(2 * t)) as u128,
+            5 => need.saturating_sub(now),                     // exactly the earliest time
+            _ => need.saturating_sub(now).saturating_sub(1),   // one ns too early
+        };
+        let mut at = now + step;
+        if at >= 4 * U64 {
+            at = now; // aimed beyond what a `Duration` in the op can usefully express
+        }
+        if wild && rng.chance(1, 10) {
+            at = now.saturating_sub(rng.below(1000) as u128); // non-monotone
+        }
+        now = now.max(at);
+        ops.push(format!("la {} {} {}", at, key, tokens));
+        // aim update (ideal arithmetic; the verdict itself is never predicted here)
+        let add = t * tokens as u128;
+        if add <= tau && at + tau >= g + add {
+            guess.insert(key, at.max(g) + add);
+        }
+        if rng.chance(1, 8) {
+            let lim = if wild && rng.chance(1, 4) {
+                now + rng.below(cap(3 * tau)) as u128
+            } else if rng.chance(1, 2) {
+                now
+            } else {
+                // idle for a while, then prune: removes entries whose bucket is full again
+                now += rng.below(cap(3 * tau)) as u128;
+                now
+            };
+            ops.push(format!("lp {}", lim));
+        }
+    }
+    ops
+}
+
+fn gen_filter_cfg(rng: &mut Rng) -> (String, bool, FCfg) {
+    let enabled = rng.chance(9, 10);
+    let pick = |rng: &mut Rng, absent_ok: bool| -> Option<(u64, u128)> {
+        match rng.below(if absent_ok { 3 } else { 2 }) {
+            0 => Some(ALWAYS),
+            1 => Some(NEVER),
+            _ => None,
+        }
+    };
+    let quotas = if rng.chance(1, 10) {
+        None
+    } else {
+        let tot = if rng.chance(1, 6) { Some(ALWAYS) } else { Some(NEVER) };
+        Some([tot, pick(rng, true), pick(rng, true)])
+    };
+    let max_nodes = match rng.below(4) {
+        0 => None,
+        1 => Some(2),
+        2 => Some(3),
+        _ => Some(10),
+    };
+    let max_bans = match rng.below(4) {
+        0 => None,
+        1 => Some(1),
+        2 => Some(2),
+        _ => Some(5),
+    };
+    let ban = match rng.below(3) {
+        0 => None,
+        1 => Some(SHORT_BAN_NS),
+        _ => Some(LONG_BAN_NS),
+    };
+    let lim = match &quotas {
+        None => "x".to_string(),
+        Some(q) => format!("{}/{}/{}", quota_txt(q[0]), quota_txt(q[1]), quota_txt(q[2])),
+    };
+    let txt = format!(
+        "{} {} {} {} {}",
+        if enabled { 1 } else { 0 },
+        lim,
+        max_nodes.map(|x| x.to_string()).unwrap_or("x".into()),
+        max_bans.map(|x| x.to_string()).unwrap_or("x".into()),
+        ban.map(|x| x.to_string()).unwrap_or("x".into())
+    );
+    let short = ban == Some(SHORT_BAN_NS);
+    (txt, short, FCfg { enabled, quotas, max_nodes, max_bans, ban })
+}
+
+/// Seeds the permit/ban lists. Returns whether a short (expiring) ban was used.
+fn gen_seed_lists(rng: &mut Rng, ops: &mut Vec<String>, now: u128, nips: u64, nnodes: u64) -> bool {
+    let mut short = false;
+    let mut d = |rng: &mut Rng, short: &mut bool| match rng.below(3) {
+        0 => "x".to_string(),
+        1 => {
+            *short = true;
+            SHORT_BAN_NS.to_string()
+        }
+        _ => LONG_BAN_NS.to_string(),
+    };
+    for _ in 0..rng.below(4) {
+        match rng.below(4) {
+            0 => ops.push(format!("lfpi {}", rng.below(nips))),
+            1 => ops.push(format!("lfpn {}", rng.below(nnodes))),
+            2 => {
+                let dd = d(rng, &mut short);
+                ops.push(format!("lfbi {} {} {}", now, rng.below(nips), dd))
+            }
+            _ => {
+                let dd = d(rng, &mut short);
+                ops.push(format!("lfbn {} {} {}", now, rng.below(nnodes), dd))
+            }
+        }
+    }
+    short
+}
+
+fn gen_filter_case(rng: &mut Rng, thorough: bool, stats: &mut Stats) -> Vec<String> {
+    let mut ops = Vec::new();
+    let (cfg_txt, mut short, cfg) = gen_filter_cfg(rng);
+    ops.push(format!("lfnew {}", cfg_txt));
+    stats.bump("gen.filter");
+    let mut now: u128 = rng.below(1000) as u128;
+    let many = rng.chance(1, 12);
+    let (nips, nnodes) = if many { (60, 120) } else { (rng.range(1, 5), rng.range(1, 8)) };
+    short |= gen_seed_lists(rng, &mut ops, now, nips, nnodes);
+    if many {
+        // more IPs with banned nodes than the per-IP ban counter cache holds
+        stats.bump("gen.filter.many");
+        for i in 0..nips {
+            ops.push(format!("lff {} {} {}", now, i, i));
+            ops.push(format!("lff {} {} {}", now, i, i));
+        }
+        for i in 0..3 {
+            ops.push(format!("lff {} {} {}", now, i, 60 + i));
+            ops.push(format!("lff {} {} {}", now, i, 60 + i));
+            ops.push(format!("lfi {} {}", now, i));
+        }
+        return ops;
+    }
+    let total = if thorough { rng.range(20, 70) } else { rng.range(25, 45) };
+    for _ in 0..total {
+        match rng.below(20) {
+            0..=7 => ops.push(format!("lfi {} {}", now, rng.below(nips))),
+            8..=15 => {
+                // a node mostly keeps its IP; sometimes many ids share one IP
+                let node = rng.below(nnodes);
+                let ip = if rng.chance(3, 4) { node % nips } else { rng.below(nips) };
+                ops.push(format!("lff {} {} {}", now, ip, node));
+            }
+            16 => ops.push(format!("lfp {}", now)),
+            17 => {
+                short |= gen_seed_lists(rng, &mut ops, now, nips, nnodes);
+            }
+            _ => {
+                if short {
+                    // expiring bans around: the sweep directly follows a sleep that outlasts them
+                    ops.push(format!("lfz {} {}", now, SLEEP_MS));
+                    now += SLEEP_MS as u128 * 1_000_000;
+                }
+                ops.push(format!("lfs {}", now));
+            }
+        }
+    }
+    ops
+}
+
+fn gen_recv_case(rng: &mut Rng, thorough: bool, stats: &mut Stats) -> Vec<String> {
+    let mut ops = Vec::new();
+    let (cfg_txt, mut short, _cfg) = gen_filter_cfg(rng);
+    ops.push(format!("lrnew {}", cfg_txt));
+    stats.bump("gen.recv");
+    let mut now: u128 = rng.below(1000) as u128;
+    let (nips, nnodes) = (rng.range(1, 4), rng.range(1, 6));
+    short |= gen_seed_lists(rng, &mut ops, now, nips, nnodes);
+    let total = if thorough { rng.range(15, 50) } else { rng.range(15, 30) };
+    for _ in 0..total {
+        let ip = rng.below(nips);
+        let port = 1000 + rng.below(2);
+        match rng.below(20) {
+            0..=2 => ops.push(format!("lrx {} {}", ip, port)),
+            3 => ops.push(format!("lry {} {}", ip, port)),
+            4..=16 => {
+                let kind = *rng.pick(&["g", "w", "m", "m", "m"]);
+                let node = rng.below(nnodes);
+                ops.push(format!("lrin {} {} {} {} {}", now, ip, port, kind, node));
+            }
+            17 => {
+                short |= gen_seed_lists(rng, &mut ops, now, nips, nnodes);
+            }
+            _ => {
+                if short {
+                    ops.push(format!("lfz {} {}", now, SLEEP_MS));
+                    now += SLEEP_MS as u128 * 1_000_000;
+                }
+                ops.push(format!("lfs {}", now));
+            }
+        }
+    }
+    ops
+}
+
+pub fn gen_case(rng: &mut Rng, tier: &str, _profile: &str, stats: &mut Stats) -> Vec<String> {
+    let thorough = tier == "thorough";
+    match rng.below(20) {
+        0..=13 => gen_limiter_case(rng, thorough, stats),
+        14..=17 => gen_filter_case(rng, thorough, stats),
+        _ => gen_recv_case(rng, thorough, stats),
+    }
 }
